@@ -222,7 +222,8 @@ class LemmaInfo:
         for i, x in enumerate(a.args[1:]):
             ann = ast.unparse(x.annotation) if x.annotation is not None else ''
             self.params.append((x.arg, 'thunk' if 'ProofThunk' in ann else ('pattern' if 'Pattern' in ann else 'other')))
-        self.prem, self.concl = parse_doc(ast.get_docstring(func.node, clean=False))
+        self.sidecar = func.qualname in SIDE_SCHEMAS
+        self.prem, self.concl = parse_doc(SIDE_SCHEMAS.get(func.qualname) or ast.get_docstring(func.node, clean=False))
         thunks = [n for n, k in self.params if k == 'thunk']
         if len(thunks) != len(self.prem):
             raise SchemaError(f'{len(thunks)} thunk parameters, {len(self.prem)} premises')
@@ -562,6 +563,8 @@ class MatchCall:
         from contracts.matching import match_single_contract, RHO
         self.base = match_single_contract()
         self.RHO = RHO
+        self.rhos = []          # further candidate solutions supplied by the unit (the universally quantified RHO is instantiated at each)
+        self.last = None
 
     def apply(self, interp, ctx, args, kwargs):
         from vc import norm
@@ -577,6 +580,10 @@ class MatchCall:
                 rho = MMp.mk('mcons', z3.IntVal(k), sol[k], rho)
             for label, cond in self.base.ensures(a, res):
                 ctx.assume(z3.substitute(cond, (self.RHO, rho)))
+        for rho in self.rhos:
+            for label, cond in self.base.ensures(a, res):
+                ctx.assume(z3.substitute(cond, (self.RHO, rho)))
+        self.last = res
         return res
 
 
@@ -593,3 +600,96 @@ def _read_solution(d, t, sol):
         _read_solution(z3.simplify(M.get(c, 'right', d)), M.get(c, 'right', t), sol)
     elif c in ('Exists', 'Mu'):
         _read_solution(z3.simplify(M.get(c, 'subpattern', d)), M.get(c, 'subpattern', t), sol)
+
+
+# ---- schemas that are not docstrings (sidecar): congruence rules -------------------------------------------------------------------------------
+SIDE_SCHEMAS = {
+    'Tautology.and_cong': "\n  a <-> b    c <-> d\n-----------------\n  a /\\ c <-> b /\\ d\n",
+    'Tautology.or_cong': "\n  a <-> b    c <-> d\n-----------------\n  a \\/ c <-> b \\/ d\n",
+    'Propositional.prop1_inst': 'p -> (q -> p)',
+    'Propositional.prop2_inst': '(p -> (q -> r)) -> ((p -> q) -> (p -> r))',
+    'Propositional.dneg_elim': '~~p -> p',
+}
+
+
+# ---- matching-based rules (prose docstrings): contracts written from the code and the property -------------------------------------------------
+def equiv_m(a, b):
+    return m_neg(M.mk('Implies', M.mk('Implies', a, b), m_neg(M.mk('Implies', b, a))))
+
+
+def imp_m(a, b):
+    return M.mk('Implies', a, b)
+
+
+MATCH_RULES = {
+    # name: (connective of both premises, which premise is instantiated (1 or 2), number of thunk premises)
+    'imp_trans_match1': ('imp', 1), 'imp_trans_match2': ('imp', 2), 'equiv_trans_match1': ('equiv', 1), 'equiv_trans_match2': ('equiv', 2),
+    'equiv_match_l': ('equiv', 'l'), 'equiv_match_r': ('equiv', 'r'),
+}
+
+
+def match_rule_unit(repo, cs, infos, name):
+    """h1 : a * b,  h2 : c * d  (* = -> or <->), the schematic side is an INSTANCE of the other premise's side (c = b[sigma] resp. b = c[sigma], sigma arbitrary):
+    the rule must not fail, and its advertised conclusion is the transitivity conclusion with the instantiated premise instantiated by the matcher R that
+    match_single returned (R is characterised by C13: sound, contained in every solution)."""
+    conn, which = MATCH_RULES[name]
+    mk = imp_m if conn == 'imp' else equiv_m
+
+    def unit(ctx):
+        from vc.spec import nosubst, covers
+        contracts = dict(cs)
+        mc = MatchCall()
+        contracts['match_single'] = mc
+        for q2, i2 in infos.items():
+            contracts[q2] = LemmaContract(repo, i2)
+        interp = Interp(repo, ctx, contracts, opts={'skip_post_init': ['Notation']})
+        cls = repo.cls(TAUT_MOD, 'Tautology')
+        me = Obj(cls, {'_axioms': AXIOMS_OF(interp, cls), '_claims': [], '_submodules': [], '_proof_expressions': [], '_notations': []})
+        sig = ctx.input('pmap', 'sigma')
+        ctx.assume(z3.And(pmwf(sig.t), mdistinct(expandmap(sig.t))))
+        SIG = expandmap(sig.t)
+        a, d = ctx.input('mpat', 'a').t, ctx.input('mpat', 'd').t
+        schem = ctx.input('mpat', 'schematic_side').t          # the side that gets matched (pattern of match_single)
+        ctx.assume(z3.And(nosubst(schem), covers(schem, SIG), mwf(a) if False else z3.BoolVal(True)))
+        inst = minst_py(schem, SIG)                             # the other premise's side is an instance of it
+        mc.rhos = [SIG]
+
+        def thunk(mterm, tag):
+            c = ctx.fresh('ppat', tag + '_conc')
+            ctx.assume(z3.And(expand(c.t) == mterm, pwf(c.t)))
+            return good_thunk(repo, ctx, c, tag)
+        if which == 1:
+            args = [thunk(mk(a, schem), 'h1'), thunk(mk(inst, d), 'h2')]
+        elif which == 2:
+            args = [thunk(mk(a, inst), 'h1'), thunk(mk(schem, d), 'h2')]
+        elif which == 'l':
+            p = ctx.fresh('ppat', 'p')
+            ctx.assume(z3.And(expand(p.t) == inst, pwf(p.t)))
+            args = [thunk(mk(schem, d), 'h'), p]
+        else:
+            p = ctx.fresh('ppat', 'p')
+            ctx.assume(z3.And(expand(p.t) == inst, pwf(p.t)))
+            args = [thunk(mk(a, schem), 'h'), p]
+        ctx.check_feasible()
+        ctx.cover('call')
+        try:
+            T = interp.run_function(cls.find_method(name), [me] + args)
+        except SymRaise as e:
+            ctx.oblige(f'noraise:{name} must accept premises whose sides match ({e.cls} at {e.where})', z3.BoolVal(False), kind='noraise')
+            return None
+        if mc.last is None or not (isinstance(T, Obj) and 'conc' in T.attrs):
+            ctx.oblige('post:returns a ProofThunk built from the matcher', z3.BoolVal(False), kind='post')
+            return None
+        R = expandmap(mc.last.t)
+        if which == 1:
+            want = mk(minst_py(a, R), d)
+        elif which == 2:
+            want = mk(a, minst_py(d, R))
+        elif which == 'l':
+            want = mk(inst, minst_py(d, R))
+        else:
+            want = mk(minst_py(a, R), inst)
+        ctx.oblige('post:the schematic side, instantiated by the returned matcher, is the other side', minst_py(schem, R) == inst, kind='post')
+        ctx.oblige('post:advertised conclusion = transitivity / the premise, with the schematic premise instantiated by the matcher', expand(T.attrs['conc'].t) == want, kind='post')
+        return None
+    return unit
